@@ -29,16 +29,24 @@ def lex(text: str) -> dict:
         if tag == "NOTES":
             parts = val.split(":")
             ch = {"nfields": len(parts) + 0, "type": "", "desc": "", "diff": "", "meter": "", "radar": "", "keys": 0,
-                  "measures": []}
+                  "cells": [], "rows": [], "widths": [], "symbols": []}
             ch["nfields"] = len(parts) + 0
             if len(parts) >= 6:
                 ch["type"], ch["desc"], ch["diff"], ch["meter"] = (x.strip() for x in parts[:4])
                 ch["radar"] = ",".join(x.strip() for x in parts[4].strip().split(","))
                 ch["keys"] = KEYS.get(ch["type"], 0)
                 data = ":".join(parts[5:])
-                for meas in data.split(","):
-                    rows = [list(ln.strip()) for ln in meas.split("\n") if ln.strip()]
-                    ch["measures"].append(rows)
+                ch["cells"], ch["rows"], widths, symbols = [], [], set(), set()
+                for mi, meas in enumerate(data.split(",")):
+                    rows = [ln.strip() for ln in meas.split("\n") if ln.strip()]
+                    ch["rows"].append(len(rows))
+                    for ri, row in enumerate(rows):
+                        widths.add(len(row))
+                        for ci, sym in enumerate(row):
+                            symbols.add(sym)
+                            if sym != "0":
+                                ch["cells"].append({"m": mi + 1, "r": ri + 1, "c": ci + 1, "n": len(rows), "s": sym})
+                ch["widths"], ch["symbols"] = sorted(widths), sorted(symbols)
                 ch["nfields"] = 6 if len(parts) == 6 else len(parts)
             tok["charts"].append(ch)
             continue
@@ -76,13 +84,17 @@ def _fmt(x):
 
 def build_measures(scn, keys):
     """lay the abstract objects of a SMMC scenario out as rows of symbols"""
-    n1, n2 = scn["rows"]
-    grid = [["0"] * keys for _ in range(n1 + n2)]
+    rows = list(scn["rows"])
+    grid = [["0"] * keys for _ in range(sum(rows))]
     for o in scn["objs"]:
         grid[o["i"]][o["c"]] = o["k"]
         if o["k"] in ("2", "4"):
             grid[o["j"]][o["c"]] = "3"
-    return [grid[:n1], grid[n1:]]
+    out, at = [], 0
+    for n in rows:
+        out.append(grid[at:at + n])
+        at += n
+    return out
 
 
 def concretize(scn, style=0, extra_charts=()) -> str:
